@@ -128,6 +128,10 @@ def replay(recs):
             exp = {"dist^2": r["d2"]}
             check(f"dist(segment,point)/{dim}D", st, case, exp, lambda: g.dist(g.Segment(P(r["a"]), P(r["b"])), P(r["p"])), lambda v: d2_ok(v, r["d2"]))
             check(f"dist(point,segment)/{dim}D", st, case, exp, lambda: g.dist(P(r["p"]), g.Segment(P(r["a"]), P(r["b"]))), lambda v: d2_ok(v, r["d2"]))
+            # other homogeneous representatives of the end points (opposite signs, as meet() returns them about half the time)
+            mixed = lambda: g.Segment(np.array([np.array(r["a"]) * -1, np.array(r["b"]) * 2]))  # noqa: E731
+            check(f"dist(segment,point)/{dim}D/mixed-sign-representatives", st, case, exp, lambda: g.dist(mixed(), P(r["p"])), lambda v: d2_ok(v, r["d2"]))
+            check(f"dist(point,segment)/{dim}D/mixed-sign-representatives", st, case, exp, lambda: g.dist(g.Point(np.array(r["p"]) * -3), mixed()), lambda v: d2_ok(v, r["d2"]))
             check(f"Segment.length/{dim}D", "general", case, {"length^2": r["len2"]}, lambda: g.Segment(P(r["a"]), P(r["b"])).length, lambda v: d2_ok(v, r["len2"]))
         elif t == "parplane":
             case = {"h": r["h"], "g": r["g"]}
@@ -144,6 +148,9 @@ def replay(recs):
             mk = lambda: g.Polygon(*[g.Point(*v) for v in r["poly"]])  # noqa: E731
             check(f"dist(polygon,point)/{dim}D", st, case, exp, lambda: g.dist(mk(), P(r["p"])), lambda v: d2_ok(v, r["d2"]))
             check(f"dist(point,polygon)/{dim}D", st, case, exp, lambda: g.dist(P(r["p"]), mk()), lambda v: d2_ok(v, r["d2"]))
+            fac = [1, -1, 2, -3, 1, -2]
+            mkm = lambda: g.Polygon(np.array([[f * c for c in list(v) + [1]] for v, f in zip(r["poly"], fac)]))  # noqa: E731
+            check(f"dist(polygon,point)/{dim}D/mixed-sign-representatives", st, case, exp, lambda: g.dist(mkm(), P(r["p"])), lambda v: d2_ok(v, r["d2"]))
         elif t == "ppolyh":
             c = r["corner"]
             case = {"cuboid": [[0, 0, 0], c], "p": r["p"]}
